@@ -267,6 +267,48 @@ def run_case(case, tier):
                 bad("conversion_mutates_operand", where, frm=[a + s, b + s, c + s], to=list(t))
             if len(samples) < 3:
                 samples.append({"from": [a + s, b + s, c + s], "to": exp, "x": [float(np.ravel(v)[0]) for v in x0[:3]], "y": [float(np.ravel(v)[0]) for v in got]})
+        # quantities derived from a series through the Food API (one month, first month, sum / minimum / maximum over months)
+        # convert like constructor-built ones: value, form (per month / total) and round trip
+        for _ in range(40):
+            a, b, c = rnd.choice(bases[0]), rnd.choice(bases[1]), rnd.choice(bases[2])
+            t = rnd.choice(tos)
+            n = rnd.choice([1, 3, 12])
+            vals = [np.array([rnd.uniform(0.001, 1e4) for _ in range(n)]) for _ in range(3)]
+            ser = Food(vals[0], vals[1], vals[2], a + " each month", b + " each month", c + " each month")
+            how = rnd.choice(["get_month", "get_first_month", "getitem", "get_nutrients_sum", "get_min_all_months", "get_max_all_months"])
+            i = rnd.randrange(n)
+            try:
+                if how == "get_month":
+                    x, suf, xv = ser.get_month(i), " per month", [v[i] for v in vals]
+                elif how == "get_first_month":
+                    x, suf, xv = ser.get_first_month(), " per month", [v[0] for v in vals]
+                elif how == "getitem":
+                    x, suf, xv = ser[i], " per month", [v[i] for v in vals]
+                elif how == "get_nutrients_sum":
+                    x, suf, xv = ser.get_nutrients_sum(), "", [v.sum() for v in vals]
+                elif how == "get_min_all_months":
+                    x, suf, xv = ser.get_min_all_months(), "", [v.min() for v in vals]
+                else:
+                    x, suf, xv = ser.get_max_all_months(), "", [v.max() for v in vals]
+                y = x.in_units(*t)
+                back = y.in_units(a, b, c)
+            except AssertionError as err:
+                bad("supported_unit_rejected", "%s of a series in %r -> %r: %s" % (how, (a, b, c), t, str(err)[:80]), how=how, frm=[a, b, c], to=list(t))
+                continue
+            stats["derived_conversions"] += 1
+            where = "%s of a series in %r -> %r" % (how, (a, b, c), t)
+            exp = [t[0] + suf, t[1] + suf, t[2] + suf]
+            if [y.kcals_units, y.fat_units, y.protein_units] != exp or list(y.units) != exp or isinstance(y.kcals, np.ndarray):
+                bad("derived_quantity_changes_form", "%s: converted labels %s / list %s (%s), expected %s as a single value" % (
+                    where, [y.kcals_units, y.fat_units, y.protein_units], list(y.units), type(y.kcals).__name__, exp), how=how, frm=[a, b, c], to=list(t))
+                continue
+            want = (xv[0] * rk[t[0]] / rk[a], xv[1] * rf[t[1]] / rf[b], xv[2] * rp[t[2]] / rp[c])
+            for nm, g, wv in zip(("kcals", "fat", "protein"), (y.kcals, y.fat, y.protein), want):
+                if not close(g, wv):
+                    bad("conversion_value_wrong", "%s %s: got %s, anchored value %s" % (where, nm, g, wv), how=how, frm=[a, b, c], to=list(t), nutrient=nm)
+            orig = [a + suf, b + suf, c + suf]
+            if [back.kcals_units, back.fat_units, back.protein_units] != orig or list(back.units) != orig or not (close(back.kcals, xv[0]) and close(back.fat, xv[1]) and close(back.protein, xv[2])):
+                bad("round_trip_not_identity", "%s and back: labels %s values %s, originally %s %s" % (where, [back.kcals_units, back.fat_units, back.protein_units], back.kcals, orig, xv[0]), how=how, frm=[a, b, c], to=list(t))
         stats["distinct_nutrient_pairs"] = len(covered_pairs)
         stats["all_triple_combinations"] = allcombos
         # anchors
@@ -329,6 +371,9 @@ def summarize(cases, records, tier):
         cov["inconclusive_reason"] = "only %d of %d ordered unit pairs covered" % (cov["distinct_nontrivial"], pairs_total)
     if tot.get("changed:fd", 0) < 3 or tot.get("changed:pd", 0) < 3 or tot.get("changed:pop", 0) < 3 or tot.get("changed:kd", 0) < 3:
         cov["inconclusive_reason"] = "re-setting histories changed some single requirement component fewer than 3 times"
+    cov["conversions_of_derived_quantities"] = int(tot.get("derived_conversions", 0))
+    if cov["conversions_of_derived_quantities"] == 0:
+        cov["inconclusive_reason"] = "no derived quantity was converted"
     if not ok:
         cov["inconclusive_reason"] = "no case completed"
     return cov
